@@ -46,6 +46,19 @@ func genC14(seed uint64, tier string) *Plan {
 	p.Knobs["p_park"] = []float64{0, 0.5, 1}[r.intn(3)]
 	p.Knobs["workers"] = float64(r.rng(1, 2))
 	p.Knobs["cancel_pos"] = float64(pos)
+	p.Knobs["val_ignore_ctx"] = float64(r.intn(2))
+	if p.SK["router"] == "gossipsub" && r.chance(0.25) {
+		// more (unreachable) direct peers than the dial queue has slots
+		p.Knobs["direct_n"] = float64(r.rng(3, 5))
+		p.Knobs["max_pending_conns"] = float64(r.rng(1, 2))
+		p.Knobs["connectors"] = float64(r.rng(1, 2))
+		p.Knobs["direct_ticks"] = float64([]int{2, 3, 300}[r.intn(3)])
+		p.Knobs["connect_block"] = float64(r.intn(2))
+		p.Knobs["conn_timeout_ms"] = float64([]int{500, 30000}[r.intn(2)])
+	}
+	// half of the workloads cancel in the MIDDLE of the API call at the cancellation position: the
+	// event loop is parked between receiving the request and handling it (verifLoopRequest)
+	p.Knobs["cancel_mid_call"] = float64(r.intn(2))
 	genDegrees(r, p, 4)
 	add := func(op string, a ...int64) { p.Items = append(p.Items, Item{Op: op, A: a}) }
 	np := r.rng(1, 3)
@@ -63,6 +76,9 @@ func genC14(seed uint64, tier string) *Plan {
 		i := int64(r.intn(np))
 		x := r.intn(100)
 		switch {
+		case x < 3:
+			// more concurrent publications than the hand-off channel to the event loop has slots
+			add("storm", int64(r.intn(2)), int64(r.rng(33, 40)))
 		case x < 60:
 			add("api", int64(r.intn(c14APIKinds)), int64(r.intn(2)), int64(r.intn(4)))
 		case x < 68:
@@ -118,6 +134,16 @@ func runC14(s *sim) {
 	if p.kb("discovery") {
 		extra = append(extra, WithDiscovery(&simDiscovery{s: s}))
 	}
+	if dn := p.ki("direct_n", 0); dn > 0 {
+		var dps []peer.AddrInfo
+		kr := newPrng(p.Seed/c14Positions, "c14-direct")
+		for i := 0; i < dn; i++ {
+			id, _ := peer.IDFromPrivateKey(genKey(kr, 0))
+			dps = append(dps, peer.AddrInfo{ID: id})
+		}
+		extra = append(extra, WithDirectPeers(dps))
+		s.probe("direct_peers_configured")
+	}
 	if err := w.startNode(extra...); err != nil {
 		s.violate("SIM", "setup", "SIM/setup", "node creation failed: %v", err)
 		return
@@ -131,6 +157,21 @@ func runC14(s *sim) {
 	var batch MessageBatch
 	nBatch := 0
 	topicH := func(k int64) (*Topic, error) { return n.topic(w.topicName(k)) }
+	var shutdown func()
+	midCall, armed := false, false
+	defer func() { verifYieldFn = nil }()
+	verifYieldFn = func(point int) {
+		if point != verifLoopRequest {
+			return
+		}
+		s.mu.Lock()
+		a := armed
+		armed = false
+		s.mu.Unlock()
+		if a {
+			s.park("loop-request", nil, nil, nil)
+		}
+	}
 	issue := func(kind int, a1, a2 int64) {
 		tname := w.topicName(a1)
 		cc := &c14Call{after: cancelled}
@@ -379,12 +420,40 @@ func runC14(s *sim) {
 			}
 		}
 		cc.kind = name
+		if midCall && !cancelled {
+			// park the event loop on the first request it receives from now on
+			armed = true
+		}
 		cc.c = s.spawn(name, f)
 		calls = append(calls, cc)
 		s.settle()
+		if midCall && !cancelled {
+			midCall = false
+			armed = false
+			var lg *gate
+			for _, g := range s.parkedGates() {
+				if strings.HasPrefix(g.id, "loop-request") {
+					lg = g
+				}
+			}
+			if lg != nil {
+				s.probe("cancel_mid_call/" + name)
+				shutdown()
+				s.release(lg, 0)
+				s.settle()
+			} else {
+				shutdown()
+			}
+		}
 	}
 	w.extraOps["api"] = func(it Item) { issue(int(it.a(0))%c14APIKinds, it.a(1), it.a(2)) }
-	shutdown := func() {
+	w.extraOps["storm"] = func(it Item) {
+		s.probe("publish_storm")
+		for k := int64(0); k < it.a(1); k++ {
+			issue(5, it.a(0), 0)
+		}
+	}
+	shutdown = func() {
 		if cancelled {
 			return
 		}
@@ -428,7 +497,11 @@ func runC14(s *sim) {
 	step := 0
 	w.beforeItem = append(w.beforeItem, func(it Item) {
 		if step == pos {
-			shutdown()
+			if p.kb("cancel_mid_call") && it.Op == "api" {
+				midCall = true // the api item itself performs the shutdown, in the middle of the call
+			} else {
+				shutdown()
+			}
 		}
 		step++
 	})
@@ -442,6 +515,10 @@ func runC14(s *sim) {
 		for _, k := range []int{7, 7, 1, 3, 5, 10, 19} {
 			issue(k, 0, int64(k))
 		}
+		// more publications than the hand-off channel to the event loop has slots (32)
+		for k := 0; k < 36; k++ {
+			issue(5, int64(k%2), 0)
+		}
 		if p.kb("discovery") {
 			// Subscribe/Relay hand requests to the discovery pipeline through a 32-slot channel
 			for k := 0; k < 36; k++ {
@@ -449,20 +526,35 @@ func runC14(s *sim) {
 			}
 			s.probe("many_subscribes_after_cancel_with_discovery")
 		}
+		// application callbacks that do not watch their context finish now
+		for round := 0; round < 4; round++ {
+			for _, g := range s.parkedGates() {
+				s.release(g, 0)
+			}
+			s.settle()
+		}
 		s.advance(5 * time.Minute) // longer than every internal deadline
 		s.settle()
 		for _, c := range calls {
 			if c.c.isDone(s) {
 				continue
 			}
-			if c.consumer {
-				continue // waits on its own context: checked below
-			}
 			when := "issued before"
 			if c.after {
 				when = "issued after"
 			}
 			s.violate("C14", "returns", "C14/call-blocked/"+c.kind, "%s (%s the cancellation at %v) has not returned %v after the context was cancelled", c.kind, when, cancelAt, s.now()-cancelAt)
+		}
+		// Subscription.Next of the simulator's consumers (blocked with a context of their own that is
+		// never cancelled before this point)
+		for _, ss := range n.subs {
+			ss.mu.Lock()
+			ended := ss.ended
+			ss.mu.Unlock()
+			if !ended {
+				s.violate("C14", "returns", "C14/call-blocked/Subscription.Next", "Subscription.Next (blocked when the context was cancelled at %v) has not returned %v later", cancelAt, s.now()-cancelAt)
+				break
+			}
 		}
 		// consumer-side waits return once their own context is cancelled
 		for _, c := range calls {
